@@ -64,7 +64,7 @@ def _shuffled_csv(path, seed, tmp):
         rows = list(csv.reader(f))
     if len(rows) <= 2:
         return path
-    head, body = rows[0], rows[1:]
+    head, body = rows[0], [row for row in rows[1:] if row]      # blank lines are not datapoints (the loader skips them)
     r = random.Random(seed)
     r.shuffle(body)
     order = list(range(len(head)))
